@@ -211,6 +211,8 @@ impl ReadBufPool {
         );
         // NOTE: poising the buffer again, unpoisoned in ReadBufPool::init_buffer.
         asan::poison_region(ptr.as_ptr().cast(), self.buf_size());
+        #[cfg(a10_verif)]
+        crate::verif::yield_point(crate::verif::points::STORE_BUF_RING_TAIL);
         ring_tail.store(tail.wrapping_add(1), Ordering::Release);
         unlock(guard);
     }
